@@ -159,31 +159,36 @@ Qed.
 Print Assumptions nego_header_roundtrip.
 
 (* ------------------------------------------------------------------ inproc *)
-Theorem inproc_pullup_exact : forall m sh, Inv m ->
-  exists m', ip_pull_up m sh false false = Some (Some m') /\ Inv m' /\ abs m' = ([], m_hdr m ++ body_of m).
+(* [chk]: nni_msg_pull_up tests the result of nni_msg_insert (the repaired
+   form); the current source is C01_PULLUP_CHECKS_INSERT (Gen/Consts.v). *)
+Theorem inproc_pullup_exact : forall chk m sh, Inv m ->
+  exists m', ip_pull_up chk m sh false false = Some (Some m') /\ Inv m' /\ abs m' = ([], m_hdr m ++ body_of m).
 Proof. exact pull_up_exact. Qed.
 Print Assumptions inproc_pullup_exact.
 
 (* under every allocation oracle: never out of bounds; dropped (None) only on
    an allocation failure; delivered with the header in front of the body --
-   except in the one case exhibited next *)
-Theorem inproc_pullup_total : forall m sh f1 f2, Inv m ->
-  exists r, ip_pull_up m sh f1 f2 = Some r /\
+   except, for the unrepaired text only, in the case exhibited next *)
+Theorem inproc_pullup_total : forall chk m sh f1 f2, Inv m ->
+  exists r, ip_pull_up chk m sh f1 f2 = Some r /\
     match r with
     | Some m' => Inv m' /\ m_hdr m' = [] /\
         (body_of m' = m_hdr m ++ body_of m \/
-         (f2 = true /\ sh = false /\ (chunk_room (m_body m) <? length (m_hdr m))%nat = false /\ body_of m' = body_of m))
+         (chk = false /\ f2 = true /\ sh = false /\ (chunk_room (m_body m) <? length (m_hdr m))%nat = false /\
+          body_of m' = body_of m))
     | None => f1 || f2 = true
     end.
 Proof. exact pull_up_spec. Qed.
 Print Assumptions inproc_pullup_total.
 
-(* "delivered completely or not at all" is FALSE of nni_msg_pull_up as written
-   when the allocation inside nni_msg_insert fails: the failure is ignored and
-   the header bytes are lost (the message is delivered truncated).  Witness: 20
-   body bytes in a 64-byte chunk with 32 bytes of headroom, a 40-byte header. *)
+(* "delivered completely or not at all" is FALSE of nni_msg_pull_up as pinned
+   (chk = false) when the allocation inside nni_msg_insert fails: the failure is
+   ignored and the header bytes are lost (the message is delivered truncated).
+   Witness: 20 body bytes in a 64-byte chunk with 32 bytes of headroom, a
+   40-byte header.  Replayed on the library: `pullup <20 bytes> <40 bytes> 0 0`
+   in harness/wb_c01.c. *)
 Theorem inproc_pullup_enomem_refuted :
-  exists m', ip_pull_up pullup_witness false false true = Some (Some m') /\
+  exists m', ip_pull_up false pullup_witness false false true = Some (Some m') /\
              m_hdr m' = [] /\ body_of m' = repeat 9%N 20 /\ m_hdr pullup_witness = repeat 7%N 40.
 Proof. exact pull_up_enomem_loses_header. Qed.
 Print Assumptions inproc_pullup_enomem_refuted.
@@ -192,23 +197,39 @@ Print Assumptions inproc_pullup_enomem_refuted.
    every allocation oracle: each message leaves through the hand-off at most
    once, in the order of the sends; a dropped one had an allocation fail; a
    delivered one is the message sent under that number, pulled up *)
-Theorem inproc_fifo_once_partial : forall ops, sends_inv ops ->
-  exists q outs, ip_run ip_init ops = Some (q, outs) /\
+Theorem inproc_fifo_once_partial : forall chk ops, sends_inv ops ->
+  exists q outs, ip_run chk ip_init ops = Some (q, outs) /\
     StronglySorted lt (fate_seqs outs) /\ NoDup (fate_seqs outs) /\
-    Forall (handoff_ok (sent_msgs ops)) (handoffs outs) /\ Forall (drop_ok (sent_msgs ops)) (drops outs).
+    Forall (handoff_ok chk (sent_msgs ops)) (handoffs outs) /\ Forall (drop_ok (sent_msgs ops)) (drops outs).
 Proof. exact fifo_once. Qed.
 Print Assumptions inproc_fifo_once_partial.
-(* _partial: [handoff_ok] admits, for a message whose chunk allocation was made
-   to fail, delivery of the body without its header (the defect above); the full
-   statement "or dropped whole" holds without that disjunct only when no
-   allocation fails: *)
-Theorem inproc_fifo_once : forall ops, sends_inv ops -> no_alloc_failure ops ->
-  exists q outs, ip_run ip_init ops = Some (q, outs) /\
+(* _partial: for chk = false [handoff_ok] admits, for a message whose chunk
+   allocation was made to fail, delivery of the body without its header (the
+   defect above).  The full statement "delivered whole, in order, once, or
+   dropped whole (allocation failure only)" holds of the repaired text under
+   every oracle, and of both texts when no allocation fails: *)
+Theorem inproc_fifo_once_repaired : forall ops, sends_inv ops ->
+  exists q outs, ip_run true ip_init ops = Some (q, outs) /\
+    StronglySorted lt (fate_seqs outs) /\ NoDup (fate_seqs outs) /\
+    Forall (fun sm => exists m f1 f2, nth_error (sent_msgs ops) (fst sm) = Some (m, f1, f2) /\
+                      abs (snd sm) = ([], m_hdr m ++ body_of m)) (handoffs outs) /\
+    Forall (drop_ok (sent_msgs ops)) (drops outs).
+Proof. exact fifo_whole_or_nothing. Qed.
+Print Assumptions inproc_fifo_once_repaired.
+
+Theorem inproc_fifo_once : forall chk ops, sends_inv ops -> no_alloc_failure ops ->
+  exists q outs, ip_run chk ip_init ops = Some (q, outs) /\
     StronglySorted lt (map fst (handoffs outs)) /\ drops outs = [] /\
     Forall (fun sm => exists m f1 f2, nth_error (sent_msgs ops) (fst sm) = Some (m, f1, f2) /\
                       abs (snd sm) = ([], m_hdr m ++ body_of m)) (handoffs outs).
 Proof. exact fifo_exact_no_failure. Qed.
 Print Assumptions inproc_fifo_once.
+
+(* which of the two texts the current source is *)
+Theorem inproc_current_source :
+  C01_PULLUP_CHECKS_INSERT = false \/ C01_PULLUP_CHECKS_INSERT = true.
+Proof. destruct C01_PULLUP_CHECKS_INSERT; auto. Qed.
+Print Assumptions inproc_current_source.
 
 (* --------------------------------------------------- websocket message mode *)
 (* (C16) the SP websocket transport sends header ++ body as one message:
